@@ -360,6 +360,7 @@ class Engine:
             if n in ('set', 'list', 'deque') and len(e.args) == 1:
                 a = self.ev(e.args[0], st)
                 if n == 'deque' and isinstance(a.t, TBag): return a
+                if n == 'list' and isinstance(a.t, TSet) and getattr(self.w, 'list_of_set_is_the_set', False): return a    # only iterated, never indexed
                 if n in ('list', 'deque') and isinstance(a.t, TSet):        # list(S): a bag with every element once
                     rt = TBag(a.t.elem); q = Const(fresh_name('lq'), a.t.elem.sort()); res = rt.fresh('list')
                     st.pc.append(ForAll([q], Select(res.term, q) == If(Select(a.term, q), 1, 0))); return res
@@ -394,7 +395,7 @@ class Engine:
             if isinstance(recv.t, TRec):
                 key = f'{recv.t.name}.{f.attr}'
                 if key in self.w.contracts:
-                    return self.apply_contract(self.w.contracts[key], f.value, recv, args, st, e.lineno)
+                    return self.apply_contract(self.w.contracts[key], f.value, recv, args, st, e.lineno, arg_nodes=e.args)
                 try: callee = self.read_field(recv, f.attr, f)               # callable field: self._transition_function(...)
                 except Unsupported: callee = None
                 if callee is not None and f'{callee.t.name}.__call__' in self.w.contracts:
@@ -446,7 +447,7 @@ class Engine:
             if a in ('values', 'keys', 'items'): raise Unsupported(f'dict.{a}() outside a for header')
         return None
 
-    def apply_contract(self, c, recv_node, recv, args, st, line):
+    def apply_contract(self, c, recv_node, recv, args, st, line, arg_nodes=None):
         self.used.add(c.key)
         names = [p for p, _ in c.params]
         o = {}
@@ -479,6 +480,12 @@ class Engine:
         if recv is not None and names[0] in c.modifies:
             if recv_node is None: raise Unsupported(f'mutating call {c.key} on a temporary')
             self.assign(recv_node, new[names[0]], st)
+        for m in c.modifies:
+            if m == names[0] and recv is not None: continue
+            i = rest.index(m) if m in rest else None
+            if i is None or arg_nodes is None or i >= len(arg_nodes) or not isinstance(arg_nodes[i], (ast.Name, ast.Attribute, ast.Subscript)):
+                raise Unsupported(f'call {c.key} modifies its argument `{m}`, which is not an assignable expression here (line {line})')
+            self.assign(arg_nodes[i], new[m], st)
         return res
 
     # ------------------------------------------------------------------ assignment (functional update along lvalue paths)
